@@ -560,6 +560,12 @@ fn special_items(ctx: &Ctx, prop: &str) -> Vec<(String, usize)> {
             for _ in 0..if q { 8 } else { 60 } {
                 v.push(("sparse-palette-gap".into(), 1));
             }
+            // pairs executed back to back on one thread: a failed load, then the file that only a
+            // decoder with leftover state would accept
+            for k in 0..if q { 12usize } else { 80 } {
+                v.push(("zlib-split-a".into(), 1000 + k));
+                v.push(("zlib-split-b".into(), 1000 + k));
+            }
             for n in if q { vec![300usize, 2000] } else { vec![300, 300, 2000, 2000, 20_000, 65_535] } {
                 v.push(("many-palette-packets".into(), n));
             }
@@ -573,7 +579,7 @@ fn special_items(ctx: &Ctx, prop: &str) -> Vec<(String, usize)> {
                 }
             }
             for b in spec::BUGS {
-                if !matches!(*b, "deep-nesting" | "many-layers" | "many-tags" | "many-frames-high-layer" | "deflate-bomb" | "tilemap-huge-extent" | "link-chain" | "bomb-with-links" | "many-palette-packets" | "chunk-size-boundary") {
+                if !matches!(*b, "deep-nesting" | "many-layers" | "many-tags" | "many-frames-high-layer" | "deflate-bomb" | "tilemap-huge-extent" | "link-chain" | "bomb-with-links" | "many-palette-packets" | "chunk-size-boundary" | "zlib-split-a" | "zlib-split-b") {
                     for _ in 0..if q { 2 } else { 12 } {
                         v.push((b.to_string(), 1));
                     }
@@ -834,6 +840,11 @@ impl Job {
 }
 
 pub fn gen_special(rseed: u64, bug: &str, scale: usize, r: &mut Rng) -> Base {
+    // the two halves of a split stream must come from the same sprite and the same draws
+    let paired = bug.starts_with("zlib-split");
+    let rseed = if paired { mix(&[0x5eed, scale as u64]) } else { rseed };
+    let mut local = Rng::new(rseed ^ 0x1234);
+    let r: &mut Rng = if paired { &mut local } else { r };
     let mut sr = Rng::sub(rseed, "spec");
     let mut s = spec::gen_spec(&mut sr);
     if scale > 100 || bug == "bomb-with-links" {
